@@ -61,6 +61,9 @@ func (r *Reader) ReadEntry() (*Entry, error) {
 
 		case RecordTypeFirst:
 			// Start of a fragmented entry
+			if len(record.data) == 0 {
+				return nil, fmt.Errorf("%w: empty first fragment", ErrCorruptRecord)
+			}
 			r.fragments = append(r.fragments, record.data)
 			r.currType = record.data[0] // Save the operation type
 
